@@ -425,7 +425,7 @@ HEADER = ('From Coq Require Import QArith ZArith String List.\n'
 def correspondence(ctx):
     rng = random.Random(ctx.seed)
     quick = ctx.tier == 'quick'
-    groups = gen_groups(rng, 40 if quick else 1500)
+    groups = gen_groups(rng, 60 if quick else 1500)
     res = ctx.run_impl('c08_impl.py', {'groups': groups})
     terms, descs = [], []
     mutated = 0
@@ -446,7 +446,7 @@ def correspondence(ctx):
                       f'{d["kernel"]}: implementation differs from the model / defining algebra ({why}) on {d}', {'case': d, 'reason': why})
     found = []
     statement_checks(ctx, groups, res, found)
-    n_inv = invariance_checks(ctx, rng, 6 if quick else 120, found)
+    n_inv = invariance_checks(ctx, rng, 8 if quick else 120, found)
     if mutated:
         ctx.note(f'{mutated} groups had an operand modified by a call (C09 covers this)')
     kinds = {}
